@@ -137,6 +137,19 @@ fn show_opt<T: std::fmt::Display>(v: Option<T>) -> String {
 
 /// Network-side decoding of an uplink the device produced (with the session keys).
 pub fn show_uplink(frame: &[u8], nwk: &[u8; 16], app: &[u8; 16], fcnt32: u32) -> String {
+    // the network side is the independent reference codec, not the crate's parser
+    let r = crate::refcodec::ref_uplink(frame, nwk, app, fcnt32);
+    if std::env::var("LV_VIEW_SELFTEST").is_ok() {
+        let o = show_uplink_impl(frame, nwk, app, fcnt32);
+        if o != r {
+            eprintln!("VIEW-MISMATCH uplink {} impl={} ref={}", hex(frame), o, r);
+        }
+    }
+    r
+}
+
+/// The same decoding through the crate's own parser (self-test of the reference codec only).
+pub fn show_uplink_impl(frame: &[u8], nwk: &[u8; 16], app: &[u8; 16], fcnt32: u32) -> String {
     let mut copy = frame.to_vec();
     let nwk_c = DefaultCrypto::new(&AES128(*nwk));
     let app_c = DefaultCrypto::new(&AES128(*app));
@@ -267,7 +280,27 @@ impl DownDesc {
     pub fn new(devaddr: u32, fcnt: u32) -> Self {
         DownDesc { confirmed: false, devaddr, fcnt, fopts: vec![], fport: None, payload: vec![], ack: false, fpending: false, adr: false, nwk: NWK_KEY, app: APP_KEY, uplink_type: false }
     }
+    /// the frame as the independent reference encoder builds it (the network server of the
+    /// harness shares no code with the device's stack)
     pub fn build(&self) -> Option<Vec<u8>> {
+        let mtype = match (self.uplink_type, self.confirmed) {
+            (false, false) => 3u8,
+            (false, true) => 5,
+            (true, false) => 2,
+            (true, true) => 4,
+        };
+        let fctrl = (self.adr as u8) << 7 | (self.ack as u8) << 5 | (self.fpending as u8) << 4;
+        let r = crate::refcodec::build_data(mtype, self.devaddr, fctrl, self.fcnt, &self.fopts, self.fport, &self.payload, &self.nwk, &self.app);
+        if std::env::var("LV_VIEW_SELFTEST").is_ok() {
+            let o = self.build_impl();
+            if o != r {
+                eprintln!("VIEW-MISMATCH build {:?} impl={:?} ref={:?}", self, o.map(|b| hex(&b)), r.as_ref().map(|b| hex(b)));
+            }
+        }
+        r
+    }
+    /// the same frame through the crate's own creator (self-test of the reference encoder only)
+    pub fn build_impl(&self) -> Option<Vec<u8>> {
         let mut buf = [0u8; 300];
         let nwk = DefaultCrypto::new(&AES128(self.nwk));
         let app = DefaultCrypto::new(&AES128(self.app));
